@@ -94,17 +94,10 @@ theorem c01_wakeup_pending (m : κ → α → Bool) (o : Opts) (q : κ) (src : L
         exact wake_step m s0 s' l (h hf0) hs hf
   exact this ls _ (fun _ => wake_initWith o q src)
 
-/-- Liveness, part 2 (no deadlock): in every reachable, unfinished state that is not quiescent some
-    INTERNAL label (no user event) is enabled.  Together with part 1 this gives: once the source ends,
-    the system keeps moving without a keystroke until it is quiescent.  (That it actually gets there
-    needs weak fairness of the four threads, which is not formalised — C01's liveness is partial.) -/
-theorem c01_no_deadlock (m : κ → α → Bool) (o : Opts) (q : κ) (src : List α) (ls : List (Label α κ)) :
-    let s := runL m (initWith o q src) ls
-    s.finished = none → ¬ (SourceEnded s ∧ CaughtUp s) →
-      ∃ l : Label α κ, (∀ e, l ≠ .user e) ∧ (step m s l).isSome = true := by
-  intro s hfin hnq
-  have hinv : Inv m s := c01_invariant m o q src ls
-  have hw : Wake s := c01_wakeup_pending m o q src ls hfin
+/-- the state-level content of "no deadlock": the reader's bookkeeping (`Core`) and a pending wake-up (`Wake`) are all it takes -/
+theorem no_deadlock_state (m : κ → α → Bool) (s : St α κ) (hcore : Core s) (hw : Wake s)
+    (hfin : s.finished = none) (hnq : ¬ (SourceEnded s ∧ CaughtUp s)) :
+    ∃ l : Label α κ, (∀ e, l ≠ .user e) ∧ (step m s l).isSome = true := by
   have hfin' : s.finished.isSome = false := by simp [hfin]
   -- the reader can move?
   by_cases hlive : s.live = true
@@ -112,7 +105,7 @@ theorem c01_no_deadlock (m : κ → α → Bool) (o : Opts) (q : κ) (src : List
     | nil => exact ⟨.rEnd, (fun e h => by cases h), by simp [step, stepWith, hfin', hlive, hu]⟩
     | cons x u => exact ⟨.rPush, (fun e h => by cases h), by simp [step, stepWith, hfin', hlive, hu]⟩
   · have hlive' : s.live = false := by simpa using hlive
-    have hun : s.unread = [] := hinv.core.dead hlive'
+    have hun : s.unread = [] := hcore.dead hlive'
     -- otherwise a wake-up is pending
     have hwork : s.mc.isSome = true ∨ allDone s = false := by
       cases hmc : s.mc with
@@ -142,6 +135,17 @@ theorem c01_no_deadlock (m : κ → α → Bool) (o : Opts) (q : κ) (src : List
         · exact ⟨.tTake, (fun e h => by cases h), by simp [step, stepWith, hmc, h2]⟩
         · exact ⟨.tPublish, (fun e h => by cases h), by simp [step, stepWith, hmc, h2]⟩
 
+/-- Liveness, part 2 (no deadlock): in every reachable, unfinished state that is not quiescent some
+    INTERNAL label (no user event) is enabled.  Together with part 1 this gives: once the source ends,
+    the system keeps moving without a keystroke until it is quiescent.  (That it actually gets there
+    needs weak fairness of the four threads, which is not formalised — C01's liveness is partial.) -/
+theorem c01_no_deadlock (m : κ → α → Bool) (o : Opts) (q : κ) (src : List α) (ls : List (Label α κ)) :
+    let s := runL m (initWith o q src) ls
+    s.finished = none → ¬ (SourceEnded s ∧ CaughtUp s) →
+      ∃ l : Label α κ, (∀ e, l ≠ .user e) ∧ (step m s l).isSome = true := by
+  intro s hfin hnq
+  exact no_deadlock_state m s (c01_invariant m o q src ls).core (c01_wakeup_pending m o q src ls hfin) hfin hnq
+
 
 /-- Liveness, part 3: quiescence is REACHABLE without a keystroke.  From every reachable unfinished state
     in which no user event is pending (every keystroke so far has been handled; select-1/exit-0 sessions end
@@ -163,7 +167,7 @@ theorem c01_quiescence_reachable (m : κ → α → Bool) (o : Opts) (q : κ) (s
   refine ⟨ls', ?_, hquiet.1, hquiet.2⟩
   intro l hl e he
   have := hall l hl
-  rw [he] at this; simp [Label.internal] at this
+  rw [he] at this; simp [Label.canon] at this
 
 /-- Session-level identity of candidates (used by C10 / C15 / C05): in every reachable state with no
     clear pending, every listed entry `(i, x)` is the item at position `i` of the current pool — the
